@@ -374,6 +374,9 @@ def C15(ctx):
     for fam, what in (("Mixed", "6 clauses incl. unit, tautology, duplicate; 3 variables"), ("Chain", "5 binary clauses in a cycle; 4 variables")) + \
             ((("Regroup", "regrouping CNF; 5 variables"),) if not ctx.quick else ()):
         model_check(ctx, "MC_HasherAlgo", "MC_HasherAlgo_%s.cfg" % fam, "HasherAlgo: every push/decide/imply/pop history (<= 2 pushes), %s" % what, workers=6, timeout=900)
+    # proof (TLAPS, any clause set, any literals, histories of any depth): the clauses kept by the stack-based computation for the
+    # caller's model are those a from-scratch pass keeps (inductive invariant: every frame has only lost clauses its model satisfies)
+    proof_check(ctx, "HasherProof", "the incremental hasher keeps exactly the clauses a from-scratch pass keeps, for any CNF and any push/decide/imply/pop history")
     model_check(ctx, "MC_HasherAlgo", "MC_HasherAlgo_perliteral.cfg", "regression: one prime per literal (not per occurrence) confuses regrouped residuals",
                 workers=2, expect_violation=True)
     n = 4 if ctx.quick else 30 * TH
